@@ -1,22 +1,25 @@
 """C20 — any partition of a mesh is a true partition and assembles row-complete systems; Merge with a node mapping is
 the inverse bookkeeping.
 
-E1.  (a) partition cases: every mesh of a small zoo of gmsh meshes (TRI3, QUAD4, TRI6, TRI3+QUAD4, TETRA4, HEXA8, PRISM6,
-PRISM6+HEXA8; 11-24 main-dimension elements) x EVERY part count Nproc = 1..Ne, plus Nproc = Ne+1 (must be refused).  The
-parts are obtained exactly as the test-suite obtains them without MPI: Mesher._Mesh_Get_Meshes(Nproc).  The unpartitioned mesh
-(Nproc = 1) of the same geometry is the global reference.  Oracle (plain numpy / python sets, written from the statement):
-one owner per main-dimension element and per node; part == owned elements + every element touching an owned node, no more;
-global numbering / coordinates / element orientation kept; two runs give the same split; K, M (Elastic) and K (Thermal)
-assembled on the part alone equal the global matrices on the rows of the owned dofs; owned-row energies Calc_Energy(K, u, owned)
-and reactions Calc_Reaction(owned) summed over the parts equal 1/2 u^T K u and K u of the global system; merging the parts gives
+E1.  (a) partition cases: every mesh of a small zoo of gmsh meshes (quick: TRI3, QUAD4, TRI6, TRI3+QUAD4, TETRA4, HEXA8, PRISM6,
+PRISM6+HEXA8 with 11-24 main-dimension elements; thorough: 27 meshes, also second/third order and up to 39 elements) x EVERY part
+count Nproc = 1..Ne, plus Nproc = Ne+1 (must be refused).  The parts are obtained exactly as the test-suite obtains them without
+MPI: Mesher._Mesh_Get_Meshes(Nproc).  The unpartitioned mesh (Nproc = 1) of the same geometry is the global reference.
+Oracle (plain numpy / python sets, written from the statement): one owner per element (main-dimension groups; boundary groups
+reported apart with the prefix `boundary_`) and per node; part == owned elements + every element touching a node the part owns,
+no more; global numbering / coordinates / element orientation kept; the four index arrays stored sorted; two runs give the same
+split; K, M (Elastic) and K (Thermal) assembled on the part alone equal the global matrices on the rows of the owned dofs, and so
+do the load vectors of a body load and of a load over the whole boundary; owned-row energies Calc_Energy(K, u, owned) and
+reactions Calc_Reaction(owned) summed over the parts equal 1/2 u^T K u and K u of the global system; Mesh.Merge of the parts gives
 the global element set back.
 (b) merge cases: ALL lists of <= 3 meshes over {A, E = A translated onto a shared edge/face, D = A disjoint, S = a second copy of A}
-(repetition = the same object twice) x 7 template meshes x {identity, generic affine image} x constructUniqueElements x mergePoints.
+(repetition = the same object twice) x 7 (thorough 13) template meshes x {identity, generic affine image} x constructUniqueElements
+x mergePoints.
 
 gmsh's partitioner (METIS) is the environment: which element goes to which part is not judged, only the bookkeeping on top of it.
-MPI is not installed: Reduce_sum / Get_dofs() under MPI_SIZE > 1 / the solver's parallel path / Mesh._Gather are not exercised;
-the owned nodes are read with Mesh._Get_mpi_owned_nodes() and turned into dofs with Bc_dofs_nodes, which is what Get_dofs() does
-under MPI.
+MPI is not installed: Reduce_sum / Get_dofs() under MPI_SIZE > 1 / the MPI return branch of Calc_Reaction / the solver's parallel
+path / Mesh._Gather are not exercised; the owned nodes are read with Mesh._Get_mpi_owned_nodes() and turned into dofs with
+Bc_dofs_nodes, which is what Get_dofs() does under MPI.
 """
 from __future__ import annotations
 
@@ -43,7 +46,7 @@ PART_MESHES = {
     "quad4_quad": dict(kind="poly", et="QUAD4", poly="quad", h=0.5, dim=2, ne=11, quick=True),
     "tri6_quad": dict(kind="poly", et="TRI6", poly="quad", h=0.5, dim=2, ne=14, quick=True),
     "mixed2d": dict(kind="mixed", dim=2, h=0.5, order=1, ne=18, quick=True),
-    "tetra4_quad": dict(kind="poly", et="TETRA4", poly="quad", h=1.0, dim=3, layers=1, ne=24, quick=True),
+    "tetra4_L": dict(kind="poly", et="TETRA4", poly="L", h=2.0, dim=3, layers=1, ne=18, quick=True),
     "hexa8_square": dict(kind="poly", et="HEXA8", poly="square", h=0.5, dim=3, layers=2, ne=12, quick=True),
     "prism6_quad": dict(kind="poly", et="PRISM6", poly="quad", h=0.5, dim=3, layers=1, ne=14, quick=True),
     "mixed3d": dict(kind="mixed", dim=3, h=0.5, order=1, ne=18, quick=True),
@@ -54,9 +57,19 @@ PART_MESHES = {
     "quad4_org": dict(kind="poly", et="QUAD4", poly="quad", h=0.2, dim=2, org=True, ne=24, quick=False),
     "tri6_L": dict(kind="poly", et="TRI6", poly="L", h=0.6, dim=2, ne=13, quick=False),
     "mixed2d_o2": dict(kind="mixed", dim=2, h=0.5, order=2, ne=18, quick=False),
-    "tetra4_L": dict(kind="poly", et="TETRA4", poly="L", h=2.0, dim=3, layers=1, ne=18, quick=False),
+    "tetra4_quad": dict(kind="poly", et="TETRA4", poly="quad", h=1.0, dim=3, layers=1, ne=24, quick=False),
     "hexa8_quad": dict(kind="poly", et="HEXA8", poly="quad", h=0.5, dim=3, layers=2, ne=22, quick=False),
     "prism6_L": dict(kind="poly", et="PRISM6", poly="L", h=0.7, dim=3, layers=2, ne=20, quick=False),
+    "tri3_pent": dict(kind="poly", et="TRI3", poly="pent", h=0.5, dim=2, ne=18, quick=False),
+    "tri6_pent": dict(kind="poly", et="TRI6", poly="pent", h=0.6, dim=2, ne=18, quick=False),
+    "tri10_quad": dict(kind="poly", et="TRI10", poly="quad", h=0.6, dim=2, ne=11, quick=False),
+    "quad8_quad": dict(kind="poly", et="QUAD8", poly="quad", h=0.5, dim=2, ne=11, quick=False),
+    "quad9_L": dict(kind="poly", et="QUAD9", poly="L", h=0.5, dim=2, ne=15, quick=False),
+    "tetra10_quad": dict(kind="poly", et="TETRA10", poly="quad", h=2.0, dim=3, layers=1, ne=12, quick=False),
+    "hexa20_square": dict(kind="poly", et="HEXA20", poly="square", h=0.5, dim=3, layers=1, ne=6, quick=False),
+    "prism15_quad": dict(kind="poly", et="PRISM15", poly="quad", h=1.0, dim=3, layers=1, ne=8, quick=False),
+    "mixed2d_h04": dict(kind="mixed", dim=2, h=0.4, order=1, ne=39, quick=False),
+    "mixed3d_l2": dict(kind="mixed", dim=3, h=0.5, order=1, layers=2, ne=36, quick=False),
 }
 
 MERGE_MESHES = {
@@ -67,7 +80,15 @@ MERGE_MESHES = {
     "TETRA4": lambda: Z.template_3d("TETRA4", 1),
     "HEXA8": lambda: Z.template_3d("HEXA8", [1, 2, 1]),
     "PRISM6": lambda: Z.template_3d("PRISM6", 1),
+    # thorough only
+    "QUAD9": lambda: Z.template_2d("QUAD9", 2),
+    "mixed_o2": lambda: Z.template_2d(("TRI6", "QUAD9"), 2),
+    "TETRA10": lambda: Z.template_3d("TETRA10", 1),
+    "HEXA20": lambda: Z.template_3d("HEXA20", [1, 2, 1]),
+    "PRISM15": lambda: Z.template_3d("PRISM15", 1),
+    "mixed_3d": lambda: Z.template_3d(("PRISM6", "HEXA8"), [2, 1, 1]),
 }
+MERGE_QUICK = ["TRI3", "QUAD4", "TRI6", "mixed", "TETRA4", "HEXA8", "PRISM6"]
 LETTERS = ["A", "E", "D", "S"]  # A, A translated onto a shared edge, A disjoint, a second copy of A
 SHIFT = {"A": (0.0, 0.0, 0.0), "E": (1.0, 0.0, 0.0), "D": (3.0, 0.5, 0.25), "S": (0.0, 0.0, 0.0)}
 MAPS = ["identity", "generic"]
@@ -82,7 +103,7 @@ def cases(tier, seed):
         for nproc in range(1, ne + 2):  # ne + 1: the partitioner has to refuse
             out.append({"kind": "partition", "mesh": name, "Nproc": nproc, "ne": ne})
     lists = [list(t) for n in (1, 2, 3) for t in itertools.product(LETTERS, repeat=n)]
-    for name in MERGE_MESHES:
+    for name in (MERGE_QUICK if tier == "quick" else MERGE_MESHES):
         for mp in MAPS:
             for uniq in (True, False):
                 for mpts in (True, False):
@@ -95,20 +116,23 @@ def describe(tier, seed):
     names = [n for n, s in PART_MESHES.items() if tier != "quick" or s["quick"]]
     return {
         "rule": "E1 full product. partition: every mesh of the zoo x every Nproc in 1..Ne+1 (Ne+1 must be refused), parts from "
-                "Mesher._Mesh_Get_Meshes(Nproc), reference = the unpartitioned mesh and its assembled K/M; merge: every list of <= 3 letters over "
-                "{A, shared-edge translate, disjoint translate, second copy} x 7 template meshes x {identity, generic affine} x constructUniqueElements x "
+                "Mesher._Mesh_Get_Meshes(Nproc), reference = the unpartitioned mesh, its assembled K/M and its load vectors; merge: every list of <= 3 letters over "
+                "{A, shared-edge translate, disjoint translate, second copy} x 7 (thorough: 13) template meshes x {identity, generic affine} x constructUniqueElements x "
                 "mergePoints. non-trivial (partition) = Nproc >= 2, some part has ghost elements and some node is shared between parts; non-trivial (merge) = "
                 ">= 2 meshes in the list; distinct = fingerprint of (ownership tables, energies) resp. (merged node/element tables)",
         "exhaustive": True,
-        "bound": f"{len(names)} gmsh meshes of 11-24 main-dimension elements, all part counts; merge lists of length <= 3 over 4 letters (84 lists)",
-        "alphabet": {"partition_meshes": len(names), "Nproc": "1..Ne+1", "merge_meshes": len(MERGE_MESHES), "letters": len(LETTERS),
+        "bound": f"{len(names)} gmsh meshes of {min(PART_MESHES[n]['ne'] for n in names)}-{max(PART_MESHES[n]['ne'] for n in names)} main-dimension elements, all part counts; merge lists of length <= 3 over 4 letters (84 lists)",
+        "alphabet": {"partition_meshes": len(names), "Nproc": "1..Ne+1", "merge_meshes": len(MERGE_QUICK if tier == "quick" else MERGE_MESHES), "letters": len(LETTERS),
                      "lists": 84, "maps": len(MAPS), "flags": 4},
         "assumptions": [
             "gmsh/METIS decide which element goes to which part; only EasyFEA's bookkeeping on top of it is judged",
             "MPI is not installed (CAN_USE_MPI False): Reduce_sum, Get_dofs() under MPI_SIZE>1, the parallel solver path and Mesh._Gather are not executed; "
             "owned dofs = Bc_dofs_nodes(mesh._Get_mpi_owned_nodes()) as Get_dofs() would compute them under MPI",
             "the unpartitioned mesh of the same geometry (Nproc=1, deterministic gmsh) is the global reference; its assembly is C03's subject",
-            f"K/M rows: {TOL_K} relative to max|K|; summed energies / reactions: {TOL_SUM} relative to sum of |terms|",
+            f"K/M/load rows: {TOL_K} relative to max|K|; summed energies / reactions: {TOL_SUM} relative to sum of |terms|",
+            "loads are given through mesh.nodes of the part (what Nodes_Conditions yields on a rank); a part without any boundary element gets no boundary load "
+            "(add_surfLoad on a node set holding no complete element raises ZeroDivisionError: load API, outside this property)",
+            "POINT groups (dimension 0) carry no integral and are not judged",
             "the seed only picks the generic dof vector u of the energy/reaction check and the generic affine map of the merge cases",
         ],
         "explanation": "every configuration is executed on the real Mesher / Simulations / Mesh.Merge code",
@@ -150,7 +174,7 @@ def _partition(name, nproc):
             if dim == 3:
                 et = ElemType.PRISM6
                 mesher._Synchronize()
-                mesher._Extrude(surfaces, [0, 0, 0.5], et, [1])
+                mesher._Extrude(surfaces, [0, 0, 0.5], et, [int(spec.get("layers", 1))])
             else:
                 et = ElemType.TRI3 if spec["order"] == 1 else ElemType.TRI6
         mesher._Set_PhysicalGroups()
